@@ -77,6 +77,11 @@ type fn struct {
 	partial bool
 	retType string
 
+	// InstantiateAny: parameters replaced by a variable of the instance type
+	anyArgs []types.Type
+	repl    map[types.Object]*types.Var
+	replOf  map[types.Object]types.Object
+
 	// effects
 	effect     bool                  // the function takes and returns the world
 	worldObj   *types.Var            // the variable holding the current world
@@ -282,7 +287,30 @@ func (g *gen) funcInstance(obj *types.Func, targs []types.Type, anyArgs ...types
 		if fd == nil || fd.decl.Body == nil {
 			g.fail("%s has no body in the loaded sources", label)
 		}
-		c := &fn{g: g, pkg: fd.pkg, info: fd.pkg.TypesInfo, decl: fd.decl, obj: obj, sig: sig, sub: sub, opts: t, fi: fi}
+		c := &fn{g: g, pkg: fd.pkg, info: fd.pkg.TypesInfo, decl: fd.decl, obj: obj, sig: sig, sub: sub, opts: t, fi: fi, anyArgs: anyArgs}
+		c.repl, c.replOf = map[types.Object]*types.Var{}, map[types.Object]types.Object{}
+		for i := 0; i < sig.Params().Len() && i < len(anyArgs); i++ {
+			if anyArgs[i] != nil {
+				p := sig.Params().At(i)
+				r := types.NewParam(p.Pos(), p.Pkg(), p.Name(), anyArgs[i])
+				c.repl[p] = r
+				c.replOf[r] = p
+			}
+		}
+		for _, n := range t.InstantiateAny {
+			found := false
+			for i := 0; i < sig.Params().Len(); i++ {
+				if sig.Params().At(i).Name() == n {
+					found = true
+					if i >= len(anyArgs) || anyArgs[i] == nil {
+						g.fail("%s: parameter %s (InstantiateAny) needs an argument with a static non-interface type at every call site; the function cannot be a root of the table", label, n)
+					}
+				}
+			}
+			if !found {
+				g.fail("%s: InstantiateAny names %s, which is not a parameter", label, n)
+			}
+		}
 		defer func() {
 			// a reason without a position gets the position of the function
 			if r := recover(); r != nil {
@@ -535,10 +563,24 @@ func (c *fn) rootIdent(e ast.Expr) *ast.Ident {
 }
 
 func (c *fn) objOf(id *ast.Ident) types.Object {
-	if o := c.info.Defs[id]; o != nil {
-		return o
+	o := c.info.Defs[id]
+	if o == nil {
+		o = c.info.Uses[id]
 	}
-	return c.info.Uses[id]
+	if o != nil && len(c.repl) > 0 {
+		if r, ok := c.repl[o]; ok {
+			return r
+		}
+	}
+	return o
+}
+
+// paramOf: the parameter object the translation works with (its instance under InstantiateAny).
+func (c *fn) paramOf(p *types.Var) *types.Var {
+	if r, ok := c.repl[p]; ok {
+		return r
+	}
+	return p
 }
 
 func (c *fn) isLocal(o types.Object) bool {
@@ -586,7 +628,7 @@ func (c *fn) calleeInfo(call *ast.CallExpr) (*fnInfo, *types.Func, ast.Expr) {
 	origin := fo.Origin()
 	if recv != nil {
 		// method of a generic type: the type arguments of the receiver
-		rt := resolve(c.info.TypeOf(recv), c.sub)
+		rt := resolve(c.tyOf(recv), c.sub)
 		if p, ok := rt.(*types.Pointer); ok {
 			rt = resolve(p.Elem(), c.sub)
 		}
@@ -601,14 +643,19 @@ func (c *fn) calleeInfo(call *ast.CallExpr) (*fnInfo, *types.Func, ast.Expr) {
 		return nil, origin, recv
 	}
 	var anyArgs []types.Type
-	if t.Oracle {
-		// an oracle is instantiated per static type of the arguments it takes as `any`
+	inst := map[string]bool{}
+	for _, n := range t.InstantiateAny {
+		inst[n] = true
+	}
+	if t.Oracle || len(inst) > 0 {
+		// an oracle is instantiated per static type of the arguments it takes as `any`;
+		// a function per static type of the arguments for its InstantiateAny parameters
 		sig := origin.Type().(*types.Signature)
 		has := false
 		for i := 0; i < sig.Params().Len() && i < len(call.Args); i++ {
 			var at types.Type
-			if c.g.kind(sig.Params().At(i).Type(), nil) == kAny && !(sig.Variadic() && i == sig.Params().Len()-1) {
-				if tt := c.info.TypeOf(call.Args[i]); tt != nil && c.g.kind(tt, c.sub) != kAny && !c.isNilExpr(call.Args[i]) {
+			if c.g.kind(sig.Params().At(i).Type(), nil) == kAny && !(sig.Variadic() && i == sig.Params().Len()-1) && (t.Oracle || inst[sig.Params().At(i).Name()]) {
+				if tt := c.tyOf(call.Args[i]); tt != nil && c.g.kind(tt, c.sub) != kAny && !c.isNilExpr(call.Args[i]) {
 					at = resolve(tt, c.sub)
 					if tv, ok := c.info.Types[call.Args[i]]; ok && tv.Value != nil {
 						at = types.Default(tv.Type)
@@ -675,7 +722,7 @@ func (c *fn) analyse() {
 		params[r] = true
 	}
 	for i := 0; i < c.sig.Params().Len(); i++ {
-		params[c.sig.Params().At(i)] = true
+		params[c.paramOf(c.sig.Params().At(i))] = true
 	}
 	mutatedParams := map[types.Object]bool{}
 	markMut := func(e ast.Expr) {
@@ -888,7 +935,7 @@ func (c *fn) analyse() {
 		ps = append(ps, r)
 	}
 	for i := 0; i < c.sig.Params().Len(); i++ {
-		ps = append(ps, c.sig.Params().At(i))
+		ps = append(ps, c.paramOf(c.sig.Params().At(i)))
 	}
 	drop := map[string]bool{}
 	for _, d := range c.opts.DropParams {
@@ -1393,7 +1440,7 @@ func (c *fn) checkAliases() {
 								fi, _, _ := c.calleeInfoSafe(call)
 								if fi != nil && len(fi.params) > 0 && fi.params[0].inout {
 									muts[o] = append(muts[o], occ{x.Pos(), loopsOf()})
-								} else if mayCarry(c.info.TypeOf(call)) {
+								} else if mayCarry(c.tyOf(call)) {
 									alias = true
 								}
 							}
@@ -1442,7 +1489,7 @@ func (c *fn) checkAliases() {
 							if fi.params[i].inout {
 								alias = false
 								muts[o] = append(muts[o], occ{x.Pos(), loopsOf()})
-							} else if !mayCarry(c.info.TypeOf(p)) {
+							} else if !mayCarry(c.tyOf(p)) {
 								alias = false
 							}
 						}
